@@ -328,7 +328,16 @@ pub fn literal(rule: Pair<Rule>) -> Parsed<Literal> {
         let num = num.trim();
 
         if num.contains('.') || num.contains('e') || num.contains('E') {
-            Ok(Literal::Float(num.parse::<f64>().map_err(|e| (e, num))?))
+            let float = num.parse::<f64>().map_err(|e| (e, num))?;
+            if float.is_finite() {
+                Ok(Literal::Float(float))
+            } else {
+                // 1e400 does not fit into a double; as infinity it would turn into `null`
+                Err(JsonPathError::InvalidNumber(format!(
+                    "number out of bounds: {}",
+                    num
+                )))
+            }
         } else {
             let num = num.trim().parse::<i64>().map_err(|e| (e, num))?;
             if num > MAX_VAL || num < MIN_VAL {
